@@ -54,6 +54,7 @@ var Prop = &engine.Prop{
 		{Name: "abandon", Quick: 300, Thorough: 12000, Fn: abandonCase},
 		{Name: "stop-backlog", Quick: 300, Thorough: 12000, Fn: stopBacklogCase},
 		{Name: "deep-backlog", Quick: 40, Thorough: 1600, Fn: deepBacklogCase},
+		{Name: "hot-read", Quick: 32, Thorough: 1600, Fn: hotReadCase},
 	},
 	Floors: map[string]int64{
 		"coherence_checks_on_cached_keys": 2000,
